@@ -308,3 +308,60 @@ Example ex_refreshed_token :
   map (get_header s_authorization) (build_all [(None, Some (WBearer [79;76;68]), q0); (None, Some (WBearer [78;69;87]), q0); (None, None, q0)])
   = [s_bearer ++ [79;76;68]; s_bearer ++ [78;69;87]; []].
 Proof. vm_compute. reflexivity. Qed.
+
+(* ---------- a credential is taken from its declared location only ---------- *)
+Lemma lookup_keep k l : lookup k (keep_key k l) = lookup k l.
+Proof.
+  induction l as [|[k' v] r IH]; [reflexivity|].
+  unfold keep_key in *. cbn [filter fst lookup].
+  destruct (bytes_eqb k k') eqn:E; cbn [lookup]; rewrite ?E; [reflexivity | exact IH].
+Qed.
+
+Lemma lookup_vals_keep k (l : list (bytes * list bytes)) : lookup_vals k (keep_key k l) = lookup_vals k l.
+Proof.
+  induction l as [|[k' v] r IH]; [reflexivity|].
+  unfold keep_key in *. cbn [filter fst lookup_vals].
+  destruct (bytes_eqb k k') eqn:E; cbn [lookup_vals]; rewrite ?E; [reflexivity | exact IH].
+Qed.
+
+Lemma lower_authorization : lower s_authorization = s_authorization.
+Proof. reflexivity. Qed.
+
+Lemma get_header_declared_authz q rest1 rest2 rest3 :
+  get_header s_authorization (mkReq (keep_key s_authorization (r_headers q)) rest1 rest2 rest3) = get_header s_authorization q.
+Proof.
+  unfold get_header, raw_header. cbn [r_headers]. rewrite lower_authorization, lookup_keep. reflexivity.
+Qed.
+
+Theorem declared_location_only : forall k name q,
+  read_cred k name q = read_cred k name (declared_part k name q).
+Proof.
+  intros k name q. destruct k; unfold read_cred, declared_part.
+  - unfold basic_read. rewrite get_header_declared_authz. reflexivity.
+  - unfold apikey_read, get_header, raw_header. cbn [r_headers]. rewrite lookup_keep. reflexivity.
+  - unfold apikey_read, get_query. cbn [r_query]. rewrite lookup_vals_keep. reflexivity.
+  - unfold bearer_read, header_token, form_token, get_query. rewrite get_header_declared_authz.
+    cbn [r_query r_form r_form_ct]. rewrite !lookup_vals_keep. reflexivity.
+Qed.
+
+Theorem same_declared_same_credential : forall k name q q',
+  declared_part k name q = declared_part k name q' -> read_cred k name q = read_cred k name q'.
+Proof.
+  intros k name q q' H. rewrite (declared_location_only k name q), (declared_location_only k name q'), H. reflexivity.
+Qed.
+
+Theorem declared_location_accepts_model : forall k name q,
+  from_declared_location k name q (has_cred (read_cred k name q)) (read_cred k name q) = true.
+Proof.
+  intros k name q. unfold from_declared_location. rewrite <- declared_location_only.
+  destruct (read_cred k name q) as [[a b]|]; cbn; [|reflexivity].
+  unfold cred_eqb. cbn [fst snd]. rewrite !bytes_eqb_refl. reflexivity.
+Qed.
+
+(* a form field (and a header, and a cookie) named like a key declared in the query is not that key *)
+Example ex_form_field_is_not_a_query_key :
+  let name := [97;112;105;95;107;101;121] in
+  let q := mkReq [(name, [120]); ([99;111;111;107;105;101], name ++ [61;120])] [([111], [[49]])] true [(name, [[102;114;111;109]])] in
+  read_cred KKeyQuery name q = None /\
+  from_declared_location KKeyQuery name q true (Some ([102;114;111;109], [])) = false.
+Proof. vm_compute. split; reflexivity. Qed.
